@@ -11,11 +11,17 @@ tie:   real functions with every signature shape of <= 4 parameters are built wi
        and the four inspect bindings.  The property itself (same key for all forms of one bound tuple;
        different keys for tuples that differ in a mentioned parameter inside the stated domain) is evaluated
        on the implementation's own keys.
+text:  a `str` is rendered as itself, whatever its code points (`str_text_is_identity`): a dedicated stream places
+       families of different strings that look-alike notions identify (canonical / compatibility equivalence, case,
+       white space at the ends, zero-width and control characters, lossy re-encodings, non-BMP, homoglyphs) - and
+       their UTF-8 bytes - as arguments, *args items, tuple items, dict values, **kwargs values, defaults and
+       key-context values; all pairs inside a family are separation pairs.
 """
 from __future__ import annotations
 
 import copy
 import inspect
+import itertools
 import json
 from pathlib import Path
 
@@ -48,7 +54,13 @@ PARTIAL = (
     "Separation is only claimed (and only checked) for templates whose consecutive fields are separated by a literal containing ':', "
     "for field texts without ':', for values of one structural type, and not under the deprecated key_context(rewrite=True) when a "
     "context name shadows a field; bytes are excluded from the proved per-type injectivity because the code's rendering of bytes is "
-    "not injective (known finding " + BYTES_SIG + ")."
+    "not injective (known finding " + BYTES_SIG + "). "
+    "Text: strings are sequences of Unicode scalar values in the model and in the token syntax (UTF-8), so a Python str holding a lone "
+    "surrogate is not exercised; the look-alike families are a fixed list (canonical / compatibility equivalence, case, white space, "
+    "zero-width and control characters, lossy re-encodings, length, non-BMP, homoglyphs) plus random strings over a code-point palette for the "
+    "rendering of single values - a renderer that merges two strings outside these classes is only met by chance. Inside containers "
+    "(tuple items beyond a 1-tuple, dict and **kwargs values) the field text contains ':', so a merging renderer there is reported as a broken "
+    "correspondence with the model, not as a violated separation."
 )
 
 
@@ -92,6 +104,24 @@ def ask_model(cases) -> list[dict]:
         head = dict(p.split("=", 1) for p in a[1].split(" "))
         out.append({"tmpl": bytes.fromhex(head["tmpl"]).decode("utf-8"), "sep": head["sep"] == "1", "calls": calls})
     return out
+
+
+def non_ascii_text(tok: str) -> bool:
+    """a value (token syntax) with a str / key / valid-UTF-8 bytes leaf outside ASCII"""
+    for t in tok.split():
+        kind, _, h = t.partition(":")
+        if kind in ("s", "k", "y") and h:
+            raw = bytes.fromhex(h)
+            if raw.isascii():
+                continue
+            if kind != "y":
+                return True
+            try:
+                raw.decode("utf-8")
+                return True
+            except UnicodeDecodeError:
+                pass
+    return False
 
 
 def explained_by_bytes(v1, v2) -> bool:
@@ -165,7 +195,7 @@ def evaluate(case, impl, model, stats=None) -> list[dict]:
         bump("decorator_refused_template")
         return fails
     if impl["tmpl"] != model["tmpl"]:
-        fails.append({"kind": "tmpl", "detail": f"template: impl {impl['tmpl']!r} model {model['tmpl']!r}"})
+        fails.append({"kind": "tmpl", "detail": f"template: impl {impl['tmpl']!a} model {model['tmpl']!a}"})
     flat = [(gi, ci, c) for gi, g in enumerate(case["groups"]) for ci, c in enumerate(g["calls"])]
     if len(flat) != len(impl["calls"]) or len(flat) != len(model["calls"]):
         raise HarnessError("call count mismatch between case, implementation run and model run")
@@ -174,7 +204,7 @@ def evaluate(case, impl, model, stats=None) -> list[dict]:
         mk = model_key(mc["key"])
         keys[(gi, ci)] = ic["key"]
         if ic["key"] != mk:
-            fails.append({"kind": "model", "at": [gi, ci], "detail": f"key: impl {ic['key']!r} model {mk!r} for call {pretty_call(c)}"})
+            fails.append({"kind": "model", "at": [gi, ci], "detail": f"key: impl {ic['key']!a} model {mk!a} for call {pretty_call(c)}"})
         if case["via"] != "decorator":
             for f in "bpdq":
                 if ic[f] != mc[f]:
@@ -184,9 +214,9 @@ def evaluate(case, impl, model, stats=None) -> list[dict]:
             direct = ic.get("direct")
             if direct is not None and direct != ic["key"]:
                 fails.append({"kind": "facade", "at": [gi, ci],
-                              "detail": f"decorated call read {ic['key']!r} but get_cache_key gives {direct!r}"})
+                              "detail": f"decorated call read {ic['key']!a} but get_cache_key gives {direct!a}"})
             if any(k != ic["gets"][0] for k in ic["gets"] + ic["sets"]) if ic["gets"] else False:
-                fails.append({"kind": "facade", "at": [gi, ci], "detail": f"one call used several keys: {ic['gets']} {ic['sets']}"})
+                fails.append({"kind": "facade", "at": [gi, ci], "detail": f"one call used several keys: {ic['gets']!a} {ic['sets']!a}"})
         # interesting states of this call
         if mc["path"] == "S":
             bump("formatter_slow_path")
@@ -198,6 +228,8 @@ def evaluate(case, impl, model, stats=None) -> list[dict]:
             bump("unbindable_positional_call_typeerror")
         if any(x == "n" for x in c["args"]) or any(v == "n" for _, v in c["kwargs"]):
             bump("toplevel_none_argument")
+        if any(non_ascii_text(x) for x in c["args"]) or any(non_ascii_text(v) for _, v in c["kwargs"]):
+            bump("calls_with_non_ascii_text")
     bounds = group_bounds(case)
     # --- the property, part 1: every form of one call has the same key
     for gi, g in enumerate(case["groups"]):
@@ -210,14 +242,14 @@ def evaluate(case, impl, model, stats=None) -> list[dict]:
         if bad:
             ci = bad[0]
             fails.append({"kind": "canon", "at": [gi, 0, ci],
-                          "detail": f"same bound arguments, different keys: {pretty_call(g['calls'][0])} -> {ks[0]!r} but {pretty_call(g['calls'][ci])} -> {ks[ci]!r}"})
+                          "detail": f"same bound arguments, different keys: {pretty_call(g['calls'][0])} -> {ks[0]!a} but {pretty_call(g['calls'][ci])} -> {ks[ci]!a}"})
     # --- the property, part 2: different bound arguments (in the stated domain) have different keys
     fields = [t for k, t in (tmpl_items or []) if k == "F"]
     if tmpl_items is None:
         fields = [kc.param_key(k, n) for k, n, _ in case["sig"] if kc.param_key(k, n) not in case["tmpl"]["auto"]]
     separated = True if tmpl_items is None else kc.is_separated(tmpl_items)
     if separated != model["sep"]:
-        fails.append({"kind": "tmpl", "detail": f"template {impl['tmpl']!r}: harness says separated={separated}, model says {model['sep']} "
+        fails.append({"kind": "tmpl", "detail": f"template {impl['tmpl']!a}: harness says separated={separated}, model says {model['sep']} "
                                                 "(generated templates are proved separated)"})
     pkeys = {kc.param_key(k, n) for k, n, _ in case["sig"]}
     ctx = case.get("ctx")
@@ -234,11 +266,13 @@ def evaluate(case, impl, model, stats=None) -> list[dict]:
                 if not (texts_ok and typed):
                     continue
                 bump("separation_pairs_checked")
+                if any(any(kc.canon(bj[f]) == kc.canon(w) for w in kc.text_variants(bi[f])) for f in typed):
+                    bump("separation_pairs_lookalike_text")
                 ki, kj = keys[(i, 0)], keys[(j, 0)]
                 if ki == kj and ki.startswith("K:"):
                     by_bytes = all(explained_by_bytes(bi[f], bj[f]) for f in diff)
                     fails.append({"kind": "sep", "at": [i, j], "signature": BYTES_SIG if by_bytes else None,
-                                  "detail": f"bound arguments differ in {typed} but share the key {ki!r}: "
+                                  "detail": f"bound arguments differ in {typed} but share the key {ki!a}: "
                                             f"{pretty_call(case['groups'][i]['calls'][0])} / {pretty_call(case['groups'][j]['calls'][0])}"})
     # --- the property at the facade: a decorated call never returns another tuple's result
     if case["via"] == "decorator":
@@ -260,7 +294,7 @@ def evaluate(case, impl, model, stats=None) -> list[dict]:
                 in_domain = any(f["kind"] == "sep" and set(f["at"]) == {gi, other} for f in fails) if other is not None else True
                 if in_domain:
                     fails.append({"kind": "facade", "at": [gi, ci], "signature": sig,
-                                  "detail": f"decorated call {pretty_call(c)} returned {ic['result']!r}, its own result is {exp!r}"})
+                                  "detail": f"decorated call {pretty_call(c)} returned {ic['result']!a}, its own result is {exp!a}"})
             bump("decorated_calls")
             if ic["ran"] == 0:
                 bump("decorated_cache_hits")
@@ -391,22 +425,104 @@ def shrink(case, fail) -> dict:
             d["sig"][i][2] = None
             if still_fails(d, kind):
                 c = d
+    try:
+        c = shrink_text(c, kind)
+    except (ValueError, UnicodeError):
+        pass
+    return c
+
+
+def _subst_tokens(case, mapping: dict) -> dict:
+    """replace whole value tokens ('s:<hex>' / 'y:<hex>') everywhere a value can stand"""
+    def sub(v):
+        return " ".join(mapping.get(t, t) for t in v.split())
+
+    c = copy.deepcopy(case)
+    for prm in c["sig"]:
+        if prm[2] is not None:
+            prm[2] = sub(prm[2])
+    if c.get("ctx"):
+        c["ctx"]["vals"] = [[n, sub(v)] for n, v in c["ctx"]["vals"]]
+    for g in c["groups"]:
+        for call in g["calls"]:
+            call["args"] = [sub(x) for x in call["args"]]
+            call["kwargs"] = [[n, sub(v)] for n, v in call["kwargs"]]
+    return c
+
+
+def shrink_text(case, kind) -> dict:
+    """shorten the strings (and valid-UTF-8 bytes) of a failing case: first two different ones together (their common
+    prefix and suffix go), then every one alone (delta debugging on its code points)"""
+    def txt(t):
+        return bytes.fromhex(t[2:]).decode("utf-8")
+
+    def tok(t, text):
+        return t[:2] + kc.hx(text)
+
+    def texts(c):
+        seen = []
+        vals = [v for g in c["groups"] for call in g["calls"] for v in call["args"] + [x for _, x in call["kwargs"]]]
+        for v in vals:
+            for t in v.split():
+                if t[:2] in ("s:", "y:") and t not in seen:
+                    try:
+                        if len(txt(t)) >= 2:
+                            seen.append(t)
+                    except UnicodeDecodeError:
+                        pass
+        return seen
+
+    c = case
+    budget = [60]
+
+    def attempt(mapping):
+        if budget[0] <= 0 or all(k == v for k, v in mapping.items()):
+            return None
+        budget[0] -= 1
+        d = _subst_tokens(c, mapping)
+        return d if still_fails(d, kind) else None
+
+    for ta, tb in itertools.combinations(texts(c), 2):
+        if ta[:2] != tb[:2]:
+            continue
+        a, b = txt(ta), txt(tb)
+        pre = 0
+        while pre < min(len(a), len(b)) and a[pre] == b[pre]:
+            pre += 1
+        suf = 0
+        while suf < min(len(a), len(b)) - pre and a[len(a) - 1 - suf] == b[len(b) - 1 - suf]:
+            suf += 1
+        for cp, cs in ((pre, suf), (pre, 0), (0, suf)):
+            na, nb = a[cp:len(a) - cs], b[cp:len(b) - cs]
+            if (cp or cs) and na and nb:
+                d = attempt({ta: tok(ta, na), tb: tok(tb, nb)})
+                if d is not None:
+                    c = d
+                    break
+    for t in texts(c):
+        s0 = txt(t)
+        keep = ddmin(list(range(len(s0))), lambda sub: attempt({t: tok(t, "".join(s0[i] for i in sorted(sub)))}) is not None)
+        if len(keep) < len(s0):
+            d = attempt({t: tok(t, "".join(s0[i] for i in sorted(keep)))})
+            if d is not None:
+                c = d
     return c
 
 
 def pretty_call(c) -> str:
-    a = [repr(kc.dec(x)) for x in c["args"]] + [f"{n}={kc.dec(v)!r}" for n, v in c["kwargs"]]
+    # ascii(): look-alike strings ('caf\xe9' / 'cafe\u0301') must be told apart in a report
+    a = [ascii(kc.dec(x)) for x in c["args"]] + [f"{n}={kc.dec(v)!a}" for n, v in c["kwargs"]]
     return "f(" + ", ".join(a) + ")"
 
 
 def pretty_sig(case) -> str:
     params, ns = kc.sig_source(case["sig"])
     for k, v in ns.items():
-        params = params.replace(k, repr(v))
+        params = params.replace(k, ascii(v))
     ctx = case.get("ctx")
     extra = ""
     if ctx:
-        extra = " under key_context(" + ", ".join(([("rewrite=True")] if ctx["rewrite"] else []) + [f"{n}={kc.dec(v)!r}" for n, v in ctx["vals"]]) + ")"
+        extra = " under key_context(" + ", ".join(([("rewrite=True")] if ctx["rewrite"] else []) + [f"{n}={kc.dec(v)!a}" for n, v in ctx["vals"]]) + ")"
     return f"def {case['names']['name']}({params})" + extra
 
 
@@ -428,7 +544,7 @@ def report(chk: Check, case, fail, origin):
         what = {"canon": "two forms of the same call get different cache keys",
                 "sep": "two calls with different bound arguments get the same cache key",
                 "facade": "a @cache-decorated call used another key / returned another call's result"}[kind]
-        chk.violation(f"{what}: {pretty_sig(small)}, template {impl.get('tmpl')!r}: {f['detail']}", replay, signature=f.get("signature"))
+        chk.violation(f"{what}: {pretty_sig(small)}, template {impl.get('tmpl')!a}: {f['detail']}", replay, signature=f.get("signature"))
     else:
         what = {"model": "get_cache_key differs from the model Key.cacheKey",
                 "inspect": "inspect.Signature binding differs from the model Key.bind",
@@ -533,6 +649,57 @@ def probe_cases():
     return out
 
 
+def text_cases(rng, rich: bool):
+    """the look-alike text stream: every family of `kc.TEXT_FAMILIES` (pairwise different strings that a normalising,
+    folding, trimming or re-encoding renderer would merge), one group of call forms per member, at every place a `str`
+    can reach the formatter.  Places whose field text is the string itself (or a 1-tuple of it) are inside the
+    separation domain - every pair of members is a separation pair; places that add a ':' (longer tuples, dict and
+    **kwargs values, nested containers) and key-context values are compared with the model."""
+    names = {"module": "m", "name": "f", "qualname": "f"}
+    e = kc.enc
+    out = []
+    A, B, C = ["p", "a", None], ["p", "b", None], ["k", "c", None]
+    STAR, KW = ["s", "args", None], ["w", "kwargs", None]
+
+    def call(args=(), **kw):
+        return {"args": [e(x) for x in args], "kwargs": [[n, e(v)] for n, v in kw.items()]}
+
+    def add(sig, tmpl, groups, vias=("direct", "decorator"), ctx=None, prefix=""):
+        for via in vias:
+            out.append({"names": names, "sig": sig, "tmpl": tmpl, "ctx": ctx, "via": via,
+                        "prefix": prefix if via == "decorator" and "items" in tmpl else "",
+                        "groups": copy.deepcopy(groups), "stream": "text"})
+
+    for fam, members in kc.TEXT_FAMILIES.items():
+        first = members[0]
+        # -- inside the separation domain: all members, always (fixed, independent of the seed)
+        add([A], {"auto": []}, [{"calls": [call([m]), call(a=m)]} for m in members])
+        add([A], {"items": [["L", "k:"], ["F", "a"], ["L", ":end"]]}, [{"calls": [call([m]), call(a=m)]} for m in members], prefix="v1")
+        add([A, B], {"auto": []}, [{"calls": [call(["k", m]), call(["k"], b=m), call(b=m, a="k")]} for m in members], vias=("direct",))
+        add([A, B], {"items": [["F", "b"], ["L", ":"], ["F", "a"]]}, [{"calls": [call([m, m]), call(b=m, a=m)]} for m in members], vias=("direct",))
+        add([STAR], {"auto": []}, [{"calls": [call([m])]} for m in members])
+        add([A, STAR], {"auto": []}, [{"calls": [call(["k", m])]} for m in members], vias=("direct",))
+        add([A], {"auto": []}, [{"calls": [call([(m,)]), call(a=(m,))]} for m in members], vias=("direct",))
+        # a default that is one member: leaving the argument out is the call with that member, and only with that one
+        add([A, ["k", "c", e(first)]], {"auto": []},
+            [{"calls": [call(["k"], c=m)] + ([call(["k"]), call(a="k")] if m == first else [])} for m in members])
+        add([["p", "a", e(first)]], {"auto": []}, [{"calls": [call([m])] + ([call()] if m == first else [])} for m in members], vias=("direct",))
+        # the same texts as (valid UTF-8) bytes
+        add([A], {"auto": []}, [{"calls": [call([m.encode()]), call(a=m.encode())]} for m in members])
+        add([STAR], {"auto": []}, [{"calls": [call([m.encode()])]} for m in members], vias=("direct",))
+        # -- outside it (the field text has a ':'): model correspondence; a sample of the members in the quick tier
+        ms = members if rich or len(members) <= 3 else [first] + rng.sample(members[1:], 2)
+        add([A], {"auto": []}, [{"calls": [call([(m, "z")])]} for m in ms] + [{"calls": [call([("z", m)])]} for m in ms], vias=("direct",))
+        add([A], {"auto": []}, [{"calls": [call([{"k": m}])]} for m in ms] + [{"calls": [call([{"k": (m, m.encode())}])]} for m in ms])
+        add([KW], {"auto": []}, [{"calls": [call(x=m)]} for m in ms] + [{"calls": [call(zz=m, x=1), call(x=1, zz=m)]} for m in ms])
+        add([A, KW], {"auto": []}, [{"calls": [call([m], x=m), call(x=m, a=m)]} for m in ms], vias=("direct",))
+        add([A, STAR, C, KW], {"auto": []}, [{"calls": [call([m, m, m.encode()], c=m, y=m)]} for m in ms], vias=("direct",))
+        for m in ms[:3] if rich else ms[:2]:
+            add([A], {"items": [["F", "a"], ["L", ":"], ["F", "site"]]}, [{"calls": [call(["k"])]}], vias=("direct",),
+                ctx={"rewrite": False, "vals": [["site", e(m)]]})
+    return out
+
+
 def corpus_cases():
     d = ROOT / "corpus" / PROP
     for f in sorted(d.glob("*.json")):
@@ -546,6 +713,30 @@ def value_correspondence(chk, stats):
     from cashews.formatter import default_format
 
     vals = [v for pool in kc.POOLS.values() for v in pool] + list(kc.MALFORMED)
+    # text outside ASCII: the look-alike families (as str, as UTF-8 bytes, inside containers), every member also with
+    # every other member around it, and random strings over a code-point palette (combining marks of several classes,
+    # precomposed / compatibility / full-width forms, spaces, zero-width and control characters, the edges of the BMP
+    # and of the surrogate gap, non-BMP) - a str must come out as itself
+    vals += [v for pool in kc.UPOOLS.values() for v in pool]
+    for members in kc.TEXT_FAMILIES.values():
+        for a in members:
+            vals += [(a,), (a, a.encode()), {"k": a}, {a: 1}, {"k": {"j": (a, None)}}]
+            vals += [a + "|" + b for b in members if b != a]
+        vals.append(tuple(members))
+        vals.append({m: m for m in members})
+    palette = [0x20, 0x41, 0x61, 0x65, 0x69, 0x7F, 0x80, 0x85, 0xA0, 0xAD, 0xB2, 0xC5, 0xDF, 0xE9, 0x130, 0x131, 0x300, 0x301, 0x307,
+               0x30A, 0x323, 0x327, 0x345, 0x34F, 0x3A9, 0x3C2, 0x3C3, 0x430, 0x5D0, 0x661, 0x1100, 0x1161, 0x11A8, 0x1E9E, 0x1EA1,
+               0x2009, 0x200B, 0x200D, 0x200E, 0x2028, 0x2060, 0x2126, 0x212B, 0x2461, 0x3000, 0x8C48, 0xAC00, 0xD7FF, 0xE000, 0xF900,
+               0xFB01, 0xFE0F, 0xFEFF, 0xFF11, 0xFF21, 0xFFFD, 0xFFFF, 0x10000, 0x1D400, 0x1F1E9, 0x1F3FD, 0x1F44D, 0x1F600, 0x10FFFF]
+    for _ in range(chk.budget(1500, 15000)):
+        t = "".join(chr(chk.rng.choice(palette)) for _ in range(chk.rng.randint(1, 5)))
+        vals.append(t)
+        if chk.rng.random() < 0.3:
+            vals.append(t.encode("utf-8"))
+    for _ in range(chk.budget(500, 5000)):
+        cp = chk.rng.randrange(0x80, 0x110000)
+        if not 0xD800 <= cp <= 0xDFFF:
+            vals.append(chr(cp) + chr(chk.rng.choice(palette)))
     vals += [bytes([b]) for b in range(256)]
     two = [bytes([a, b]) for a in range(256) for b in range(256)]
     vals += two if chk.thorough else chk.rng.sample(two, 3000)
@@ -561,13 +752,13 @@ def value_correspondence(chk, stats):
         vals.append(chk.rng.randint(-10 ** chk.rng.randint(1, 25), 10 ** chk.rng.randint(1, 25)))
     for _ in range(chk.budget(300, 3000)):
         vals.append(tuple(kc.gen_value(chk.rng, malformed=chk.rng.random() < 0.2) for _ in range(chk.rng.randint(0, 3))))
-        vals.append({k: kc.gen_value(chk.rng) for k in chk.rng.sample(["b", "a", "é", "Z", "aa", "", "k:"], chk.rng.randint(0, 4))})
+        vals.append({k: kc.gen_value(chk.rng) for k in chk.rng.sample(["b", "a", "é", "Z", "aa", "", "k:", "e\u0301", "\U0001f600", "\uffff", "\u212b"], chk.rng.randint(0, 4))})
     answers = DRIVER.ask(["text " + kc.enc(v) for v in vals])
     bad = []
     for v, a in zip(vals, answers):
         parts = dict(p.split("=", 1) for p in a.split(" ")) if a.startswith("fast=") else None
         if parts is None:
-            raise HarnessError(f"model driver could not render {v!r}: {a}")
+            raise HarnessError(f"model driver could not render {v!a}: {a}")
         fast = default_format("{v}", v=v)                 # every field present: str.format fast path
         slow = default_format("{v}{missing}", v=v)        # a missing field: string.Formatter slow path
         mfast = bytes.fromhex(parts["fast"]).decode("utf-8")
@@ -576,18 +767,20 @@ def value_correspondence(chk, stats):
             bad.append((v, fast, mfast, slow, mslow))
     stats["value_renderings_compared"] = len(vals)
     stats["bytes_values_compared"] = sum(isinstance(v, bytes) for v in vals)
+    stats["non_ascii_str_values_compared"] = sum(isinstance(v, str) and not v.isascii() for v in vals)
     return bad
 
 
 def report_value_diffs(chk, bad):
-    for v, fast, mfast, slow, mslow in bad[:2]:
+    uniq = {kc.enc(b[0]): b for b in bad}
+    for v, fast, mfast, slow, mslow in [uniq[k] for k in sorted(uniq, key=lambda k: (len(k), k))[:2]]:   # the smallest values
         case = {"names": {"module": "m", "name": "f", "qualname": "f"}, "sig": [["p", "a", None]],
                 "tmpl": {"items": [["F", "a"]]}, "ctx": None, "via": "direct", "prefix": "",
                 "groups": [{"calls": [{"args": [kc.enc(v)], "kwargs": []}]}]}
-        chk.violation(f"correspondence broken (value rendering differs from the model Key.typeFmt/fmtField) for {v!r}: "
-                      f"impl fast {fast!r} slow {slow!r}, model fast {mfast!r} slow {mslow!r}; no input was found on which the "
+        chk.violation(f"correspondence broken (value rendering differs from the model Key.typeFmt/fmtField) for {v!a}: "
+                      f"impl fast {fast!a} slow {slow!a}, model fast {mfast!a} slow {mslow!a}; no input was found on which the "
                       "implementation contradicts the property",
-                      {"case": case, "value": repr(v), "broken": "formatter rendering of one value"}, signature=None, no_input=True)
+                      {"case": case, "value": ascii(v), "broken": "formatter rendering of one value"}, signature=None, no_input=True)
 
 
 def run(chk: Check) -> int:
@@ -612,6 +805,9 @@ def run(chk: Check) -> int:
     for c in probe_cases():
         cases.append(c)
         origin.append("probe")
+    for c in text_cases(rng, chk.thorough):
+        cases.append(c)
+        origin.append("text")
     sig_count = 0
     for shape, rep in chosen:
         first_self = shape[0] > 0 and rng.random() < 0.12
@@ -640,7 +836,7 @@ def run(chk: Check) -> int:
             interesting = {k for k in local if k in (
                 "formatter_slow_path", "keyword_only_call_defaults_applied", "raw_kwargs_fallback",
                 "separation_pairs_checked", "call_form_pairs_compared", "unbindable_positional_call_typeerror",
-                "decorated_cache_hits")}
+                "decorated_cache_hits", "separation_pairs_lookalike_text")}
             if interesting:
                 distinct.add(json.dumps([case["sig"], case["tmpl"], case["ctx"], case["via"], case["groups"]], sort_keys=True))
             hist["via"][case["via"]] = hist["via"].get(case["via"], 0) + 1
@@ -696,12 +892,19 @@ def run(chk: Check) -> int:
                 + "; templates: generated, generated with an excluded parameter, explicit separated and explicit arbitrary; "
                 "calls: two families (any value types / scalars only) of a base bound tuple and up to 3 one-place mutants from the typed alphabet, each in every equivalent call form "
                 "(k leading positionals x keyword / omitted-default choices x keyword orders x dict insertion orders), plus a malformed stream (unbindable calls, "
-                "'' and ':' texts, fields that are no parameters). A case is non-trivial iff it compared at least two call forms of one "
+                "'' and ':' texts, fields that are no parameters); a fixed text stream: every family of look-alike strings (canonically / "
+                "compatibility equivalent, case variants, leading / trailing / inner white space, zero-width and control characters, lossy "
+                f"re-encodings, non-BMP, homoglyphs; {len(kc.USTRS)} strings in {len(kc.TEXT_FAMILIES)} families), one group per member, as a direct argument, second argument, *args "
+                "item, 1-tuple, default value, UTF-8 bytes (inside the separation domain: all pairs of one family must get different keys) and as "
+                "an item of longer tuples, a dict value, a **kwargs value, nested, a key-context value (compared with the model); the same strings "
+                "are 30% of the str / bytes draws of the generated stream and the preferred one-place mutants of each other. "
+                "A case is non-trivial iff it compared at least two call forms of one "
                 "bound tuple, checked a separation pair inside the stated domain, took the keyword-only path with defaults applied, the raw-kwargs "
                 "fallback, the formatter's slow path, a TypeError from bind, or a decorated cache hit; distinct = distinct case contents",
         "exhaustive": True,
         "exhaustive_subspace": ("all %d signature shapes with <= 4 parameters (default values, argument values and explicit templates are sampled); "
-                                "all 256 one-byte bytes values for the rendering" % len(shapes))
+                                "all 256 one-byte bytes values for the rendering; all pairs inside each of the %d look-alike text families at "
+                                "every placement of the text stream" % (len(shapes), len(kc.TEXT_FAMILIES)))
                                + ("; all 65536 two-byte bytes values" if chk.thorough else ""),
         "signature_shapes_total": len(shapes),
         "signatures_run": sig_count,
@@ -725,7 +928,7 @@ def replay(chk: Check, path: str) -> int:
     i = 0
     for g in case["groups"]:
         for c in g["calls"]:
-            print(f"  {pretty_call(c):40s} impl={impl['calls'][i]['key']!r} model={model_key(model['calls'][i]['key'])!r}")
+            print(f"  {pretty_call(c):40s} impl={impl['calls'][i]['key']!a} model={model_key(model['calls'][i]['key'])!a}")
             i += 1
     unlisted = []
     for f in fails:
